@@ -810,8 +810,14 @@ def run_all(queries, prop, findings, jobs=None, on_result=None):
                         for g in got:
                             on_result(g)
                 except EOFError:
-                    results.append(dict(query=q.name, kind=q.kind, check="*", status="error",
-                                        error="worker died", required=q.required))
+                    # the solver process died without an answer (in practice: memory): undecided, not broken
+                    if not getattr(q, "_retried", False):
+                        q._retried = True
+                        pending.append(q)
+                    else:
+                        results.append(dict(query=q.name, kind=q.kind, check="*", K=q.K, status="unknown",
+                                            reason="solver process died twice without an answer (memory)",
+                                            required=q.required))
                 p.join()
             elif not p.is_alive():
                 # the worker may have sent its result and exited between our poll() and is_alive()
